@@ -354,7 +354,11 @@ def step (P : Program) (s : St) : Event → Option St
     if s.started && e == s.epoch then some { s with dbIter := e } else none
   | .cycle ks =>
     match s.target with
-    | some root => if lassoOk s root ks then some { s with cycleSeen := true } else none
+    | some root =>
+      -- (as coded: when the requested key is complete and only rules reached through discovered
+      -- dependencies wait on each other, the search from the requested key finds nothing and the
+      -- engine reports an EMPTY list; known finding F30)
+      if lassoOk s root ks || (ks.isEmpty && isDone s root) then some { s with cycleSeen := true } else none
     | none => none
   | .error _ => some { s with errSeen := true }
   | .cancel => some { s with cancelled := true }
